@@ -92,8 +92,10 @@ Resolve(ev) ==
 \* C04: writes confined to output/reserved/initialized/internal; red zones intact; result inside
 \* the output field and NUL-terminated there; no static written by a re-entrant function
 AllowedStatics(e) == IF e \in {"crypt", "fcrypt", "xcrypt"} THEN {"nr_crypt_ctx.0"} ELSE {}
+\* (crypt_ra owns its block: when the recorded size says it must be replaced, the library erases it first by design)
 C_Confined(ev) ==
-  /\ ev.appsame = 1 /\ ev.rz = 1
+  /\ (ev.appsame = 1 \/ (ev.e = "crypt_ra" /\ (ev.predata = 0 \/ ev.presize < SIZEOF)))
+  /\ ev.rz = 1
   /\ ev.ret \in {"null", "out"}
   /\ (ev.ret = "out" => ev.outk = "str")
   /\ \A i \in 1..Len(ev.sw) : ev.sw[i] \in AllowedStatics(ev.e)
